@@ -191,9 +191,10 @@ def run(ctx):
                     bad = bad or "k=%d: size=%s mask=%s" % (k, ev(cr, sz[0].value, a), ev(cr, mk[0].value, a))
             except Unevaluable:
                 bad = bad or "not evaluable"
-        if not cr.calls("calloc"):
-            bad = bad or "slots are not zero-initialised (NULL marks an empty slot)"
     o.check(bad is None, "size/mask table", bad, site=cr.loc, construct="ring buffer create")
+    from rules import check_zeroed_alloc
+    check_zeroed_alloc(ctx, P, "lockfree_ring_buffer_create", "create.zero", "the slots of a new ring buffer",
+                       "NULL marks an empty slot: a stale non-NULL word makes trypush fail for ever on a buffer that is not full (a popper seems to be mid-clear)")
     o = ctx.ob("writers", "", "high is modified only by the trypush CAS, low only by the trypop CAS", "a second writer un-claims or double-claims slots")
     bad = None
     for fn in P.unique_functions():
